@@ -31,7 +31,7 @@ class Check(CheckBase):
     case_timeout = 180
 
     def generate(self):
-        n = 320 if self.tier == 'quick' else 20000
+        n = 320 if self.tier == 'quick' else 80000
         cases = []
         for i in range(n):
             r = random.Random(f'C01/{self.seed}/{i}')
